@@ -14,7 +14,7 @@ Separate Extraction
   Refine.select Refine.indicator
   Grid.run_history Grid.beta_to_knots Grid.grid_coords Cost.allocation Cost.actual
   Sched.executor_path Sched.serial_path Sched.error_indices
-  Codec.show_tuple Codec.parse_tuple Codec.show_pair Codec.parse_pair
+  Codec.show_tuple Codec.parse_tuple Codec.show_pair Codec.parse_pair Codec.save_tree Codec.load_tree Codec.save_index_set Codec.load_index_set
   Fault.rebase Fault.error_records Fault.with_imputed
   QcInst.qc_make QcInst.qc_num QcInst.qc_den
   QcRun.q_refine1 QcRun.q_basis1 QcRun.q_dbasis1 QcRun.q_tpredict QcRun.q_tpredict_abs QcRun.q_tgrad
